@@ -4,7 +4,10 @@ package main
 // line route, including very long commands.
 
 import (
+	"fmt"
 	"math/rand"
+	"os"
+	"path/filepath"
 	"strings"
 	"time"
 )
@@ -23,7 +26,7 @@ func streamKeyconv() {
 		}
 		cases = append(cases, kc{k, randChain(r, 1+r.Intn(8))})
 	}
-	for _, n := range []int{100, 255, 256, 1000, 1023, 1024, 1025, 4096, 10000, pick(20000, 100000)} {
+	for _, n := range []int{100, 255, 256, 1000, 1023, 1024, 1025, 4096, 10000, 20000, 65535, 65536, 65537, 70000, pick(100000, 131000)} {
 		cases = append(cases, kc{keys28[r.Intn(28)], randChain(r, n)}, kc{"Cb", strings.Repeat("dprs", n/4) + "d"})
 	}
 	for _, k := range []string{"E#", "zz", "G#", ""} {
@@ -36,7 +39,25 @@ func streamKeyconv() {
 		if c.key != "" {
 			args = append(args, "--key", c.key)
 		}
+		// every third case writes through -o FILE (onto an existing, longer file): the file then holds the whole answer
+		outPath := ""
+		if i%3 == 2 {
+			dir := filepath.Join(outDir, fmt.Sprintf("kc-%d", i))
+			must(os.MkdirAll(dir, 0o755))
+			defer os.RemoveAll(dir)
+			outPath = filepath.Join(dir, "out.txt")
+			must(os.WriteFile(outPath, []byte(strings.Repeat("previous\n", 50)), 0o644))
+			args = append(args, "-o", outPath)
+		}
 		res := runCrd(nil, 30*time.Second, args...)
+		if outPath != "" && res.class() == "ok" {
+			b, err := os.ReadFile(outPath)
+			must(err)
+			if len(res.stdout) != 0 {
+				b = append(b, []byte("STDOUT-AS-WELL\n")...)
+			}
+			res.stdout = b
+		}
 		switch res.class() {
 		case "crash":
 			results[i] = "crash"
